@@ -25,6 +25,15 @@ def main():
             return ("discard", "does-not-compile")
         r = vf.run([abidiff, "--no-default-suppression", a, b], env=vf.henv(d))
         h = vf.run([abidiff, "--no-default-suppression", "--harmless", a, b], env=vf.henv(d))
+        if h.exit == 0 and not h.out and case["muts"][0].get("ty"):
+            # nothing at all differs for libabigail: is the edited type described in the debug info in the first place?  (clang's limited debug info
+            # leaves a struct that is only reached through a pointer as a declaration, and what it contains is then not emitted); asked of readelf
+            ty = case["types2"][case["muts"][0]["ty"] - 1]
+            tname = {"struct": "S%d", "union": "U%d", "enum": "E%d", "typedef": "T%d"}.get(ty["k"], "?%d") % ty["id"]
+            dump = vf.run(["readelf", "--debug-dump=info", b], env=vf.henv(d), timeout=120).out
+            import re as _re
+            if not _re.search(r"DW_AT_name\s*:.*\b%s\s*$" % _re.escape(tname), dump, _re.M):
+                return ("discard", "edited-type-not-described-in-the-debug-info")
         rep = report.parse(h.out)
         # hook H3: the forest behind both runs; the catalogue entry must show up as a harmless *local* category (Catalogue!CategoryOfKind)
         trees = [difftree.tree_event(abidiff, a, b, o, vf.henv(d), idx, base=bs, extra={"comp": comp, "mutKind": case["muts"][0]["kind"]}) for o, bs in (([], r), (["--harmless"], h))]
